@@ -104,6 +104,12 @@ func Catalog() []VarSpec {
 	c = append(c, vs("F.I8Arr[0]", TInt, reflect.Int8, "slice-const", true, func() *Path { return P("F.I8Arr", 0) }))
 	c = append(c, vs("F.PArr[0].X", TInt, reflect.Int64, "slice-ptr", true, func() *Path { return P("F.PArr", 0, ".X") }))
 	c = append(c, vs("F.PArr[F.Idx].X", TInt, reflect.Int64, "slice-ptr", true, func() *Path { return P("F.PArr", idxVar("F"), ".X") }))
+	// a selector two steps above the field
+	c = append(c, vs("F.PArr[0].Sub.V", TInt, reflect.Int64, "slice-ptr-deep", true, func() *Path { return P("F.PArr", 0, ".Sub", ".V") }))
+	c = append(c, vs("F.PArr[F.Idx].Sub.V", TInt, reflect.Int64, "slice-ptr-deep", true, func() *Path { return P("F.PArr", idxVar("F"), ".Sub", ".V") }))
+	c = append(c, vs(`F.MP["a"].Sub.V`, TInt, reflect.Int64, "map-ptr-deep", true, func() *Path { return P("F.MP", "a", ".Sub", ".V") }))
+	c = append(c, vs(`F.MP[F.MKey].Sub.V`, TInt, reflect.Int64, "map-ptr-deep", true, func() *Path { return P("F.MP", VarE(P("F.MKey"), TStr, reflect.String), ".Sub", ".V") }))
+	c = append(c, vs("F.In.Sub.V", TInt, reflect.Int64, "nested-ptr-deep", true, func() *Path { return P("F.In.Sub.V") }))
 	// maps
 	c = append(c, vs(`F.M["k1"]`, TInt, reflect.Int64, "map-const", true, func() *Path { return P("F.M", "k1") }))
 	c = append(c, vs(`F.M["k2"]`, TInt, reflect.Int64, "map-const", true, func() *Path { return P("F.M", "k2") }))
@@ -156,7 +162,7 @@ func GenState(r *rand.Rand) State {
 	}
 	sb := func() bool { return r.Intn(2) == 0 }
 	mkInner := func() *Inner {
-		return &Inner{X: si(), Y: sf(), S: ss(), B: sb(), N: int32(si()), U: uint16(r.Intn(5))}
+		return &Inner{X: si(), Y: sf(), S: ss(), B: sb(), N: int32(si()), U: uint16(r.Intn(5)), Sub: &Leaf{V: si(), W: sf()}}
 	}
 	base := time.Date(2020, 1, 1, 0, 0, 0, 0, time.UTC)
 	mkFact := func() *Fact {
@@ -179,6 +185,7 @@ func GenState(r *rand.Rand) State {
 			MInt: map[string]int{"k1": int(si())},
 			Idx:  int64(r.Intn(2)), Key: []string{"k1", "k2"}[r.Intn(2)],
 		}
+		f.MKey = []string{"a", "b"}[r.Intn(2)]
 		pbv := sb()
 		f.PB = &pbv
 		f.AnyB = sb()
